@@ -94,7 +94,7 @@ partial def allH (v : Variant) (ctx : Ctx) : Expr → List Expr
         if v.hangMinusGuard ∧ op = .minus ∧ isUnMinus e' then un op (paren e') else un op e')
   | bin op l r =>
       let ls := allB v (if v.hangLhsExp ∧ op = .caret then .binLhsExp else .unOrBin) l
-      let rs := allB v .std r
+      let rs := allB v (if v.hangRhsOperand then .unOrBin else .std) r
       dedup (ls.flatMap fun l' => rs.map fun r' => bin op l' r')
   | e => [fmtS v ctx e]
 partial def allB (v : Variant) (ctx : Ctx) : Expr → List Expr
@@ -115,7 +115,7 @@ def variantOf : String → Option Variant
   | "repaired" => some repaired
   | s =>
     match s.toList with
-    | [a, b, c] => some { ctxThroughDrop := a == '1', hangMinusGuard := b == '1', hangLhsExp := c == '1' }
+    | [a, b, c, d] => some { ctxThroughDrop := a == '1', hangMinusGuard := b == '1', hangLhsExp := c == '1', hangRhsOperand := d == '1' }
     | _ => none
 
 /-- entry points: `std` (format_expression | hang_expression), `prefix`, `cond`
